@@ -52,8 +52,15 @@ def _not_started() -> Any:
     return st
 
 
+# a whole check never runs longer than this (a change to the repo can blow a level up a hundredfold, e.g. a dict
+# keyed by symbolic patterns): levels not started by then are reported as not completed -- violations found so far are
+# still replayed and reported, and without any the run is inconclusive (never a pass)
+TOTAL_CAP_S = float(os.environ.get('VERIF_TOTAL_CAP_S', '2400'))
+
+
 def _capped(lv: dict) -> bool:
-    return bool(lv.get('deep')) and time.time() - T_START > THOROUGH_CAP_S
+    el = time.time() - T_START
+    return (bool(lv.get('deep')) and el > THOROUGH_CAP_S) or (not lv.get('deep') and el > TOTAL_CAP_S)
 
 
 def _one_level(lv: dict) -> tuple:
